@@ -49,5 +49,5 @@ SPEC = dict(
                'This is the right level because the codec is pure and its interesting input space is small enough to enumerate.',
     level_note='trusted: the harness reference encoder (table of a/utf.h) and ASan red-zone detection; strings of more than 6 bytes are sampled; '
                'a_utf_length_ is not validating, its value is only judged on well-formed input',
-    technique='exhaustive input sweep with exact table oracle; every library-visible buffer an exact-size heap block under ASan+UBSan',
+    technique='exhaustive input sweep with exact table oracle; every library-visible buffer an exact-size heap block under ASan+UBSan; result cell overlapping the input bytes',
 )
